@@ -32,6 +32,12 @@ def handle : List String → String
       match lookup op with
       | none => "bad-op"
       | some row => toString (encodeRow row (args.map (fun a => natOr a 0)))
+  | ["vm", w] =>
+    match w.toNat? with
+    | none => "bad-op"
+    | some w => match decode w with
+      | none => "InvalidInstruction"
+      | some _ => "accepted"
   | _ => "bad-op"
 
 def run : IO Unit := lineLoopPure handle
